@@ -1146,6 +1146,10 @@ def check(src, rep, tier):
     rep.need('C03.R3', 6)
     rep.need('C03.R4', 8)
     rep.need('C03.R5', 1)
+    # the premise of the comparison: a version that is valid by the Policy grammar can be constructed (C14.R1, the direction
+    # valid ⊆ accepted; what else the constructor accepts is C14's business)
+    from . import C14
+    rep.guard('C03.R7', C14.r1_accepted_set, src, 'C03.R7', True)
     rep.guard('C03.R1', r1_operators, src)
     rep.guard('C03.R2', r2_compare, src)
     rep.guard('C03.R3', r3_string_compare, src)
